@@ -192,6 +192,11 @@ func (p *Conn) checkProxyHeader() error {
 		return err
 	}
 
+	// LOCAL (v2) and UNKNOWN (v1): keep the addresses of the socket
+	if hdr.Command.IsLocal() || hdr.TransportProtocol.IsUnspec() {
+		return nil
+	}
+
 	// initial real src/dst address
 	srcAddr := net.JoinHostPort(hdr.SourceAddress.String(), fmt.Sprintf("%d", hdr.SourcePort))
 	p.srcAddr, err = net.ResolveTCPAddr(hdr.TransportProtocol.String(), srcAddr)
